@@ -184,8 +184,8 @@ def summarise(P, name, ctx):
                     continue   # handled as terminator
                 if nm == 'print_to_with' and ev['args'] and _is_rec_field(ev['args'][0], rec, 'msg'):
                     effects.append(('msg',))
-                elif nm == 'fprintf':
-                    effects.append(('diag',))
+                elif nm in ('fprintf', 'Exception_Error', 'Exception_Backtrace'):
+                    effects.append(('diag',))     # only reports (when it does not terminate it is an ordinary call)
                 else:
                     raise Undecided('call to %s in %s is outside the exception-record vocabulary' % (nm, name))
             elif t == 'ret':
